@@ -22,7 +22,7 @@ RULE = ("Hypothesis constructs template scripts with {name} parameters in positi
         "arithmetic domain (division by zero, ...) or a parameter cancels identically are discarded and counted.")
 ASSUMPTIONS = ["values whose reference error bound exceeds 1e-11 relative are not compared (catastrophic cancellation)",
                "parameter names exclude Python keywords (the public API is template(**values))"]
-BUDGET = {"quick": (1200, 4), "thorough": (26000, 16)}
+BUDGET = {"quick": (1600, 4), "thorough": (26000, 16)}
 
 
 def _cfg(tier):
@@ -99,7 +99,7 @@ def case(draw, tier):
             el = {"int": st.integers(-9, 9), "float": _real_value(),
                   "complex": st.one_of(_real_value(), st.complex_numbers(max_magnitude=4, allow_nan=False, allow_infinity=False))}[vt]
             rows = [[draw(el) for _ in range(c)] for _ in range(r)]
-            vals[name] = {"array": rows, "ndarray": draw(st.booleans()), "memory": draw(st.sampled_from(["C", "F", "transposed-view", "reversed-view"]))}
+            vals[name] = {"array": rows, "ndarray": draw(st.sampled_from([True, True, False])), "memory": draw(st.sampled_from(["C", "F", "transposed-view", "reversed-view"]))}
         elif d["kind"] == "int":
             vals[name] = draw(st.integers(-6, 6))
         elif d["kind"] == "real" or draw(st.integers(0, 3)) > 0:
@@ -177,6 +177,10 @@ def check(c):
     out = Outcome(key=text + repr(sorted(vals.items(), key=str)), classes=sorted(feats | {"slot:" + s for s in slots}),
                   sample={"template": text, "values": {k: repr(v) for k, v in vals.items()}})
     out.nontrivial = len(vals) >= 2 and bool(slots - {"positional"})
+    for v_ in vals.values():
+        if isinstance(v_, dict) and v_["ndarray"] and v_.get("memory", "C") != "C" and len(v_["array"]) > 1 and len(v_["array"][0]) > 1:
+            out.classes.append("array-valued-parameter:non-contiguous-ndarray>=2x2")
+            break
     T, e = K.safe_loads(text)
     if e is not None:
         out.violations.append(Violation(exc_bucket("load-template", e), "template refused: %s: %s\n%s" % (type(e).__name__, e, text)))
